@@ -1904,7 +1904,9 @@ def replay_counterexamples(ctx: Ctx) -> None:
         '</xs:schema>')
     obs['pattern chain: base refuses 12, derived accepts 12'] = [pch.types['r1'].is_valid('12'), pch.types['r2'].is_valid('12'),
                                                                  pch.types['r2'].is_valid('123')]
-    want = {'pattern chain: base refuses 12, derived accepts 12': [False, True, True],
+    # C02-F12: the pinned code drops the base step's patterns (derived accepts '12'); repaired since the chain fix
+    f12_known = ctx._finding_status.get('C02-F12') == 'known'
+    want = {'pattern chain: base refuses 12, derived accepts 12': [False, True, True] if f12_known else [False, False, True],
             'date 10000-02-29 (1.1)': 'raises ValueError', 'date 10003-02-29 (1.1)': '10003-02-29',
             'date -9999-01-01 (1.1)': [-10000, '-10000-01-01', -10001],
             'hexBinary 4a<U+2003>': True, 'base64Binary Y<U+2003>WJj': True,
